@@ -30,7 +30,14 @@ TECHNIQUE = (
     "reply that is no answer to it (incomplete negative response / response naming another service) while later sessions of the list "
     "can be entered; service ids whose shorter probe lengths get such a reply while the longer ones are answered by the model; "
     "identifiers of the scanned range that are never answered (all retransmissions) or get such a reply - the later sessions, the "
-    "longer probe lengths and the identifiers after them must still be requested and reported"
+    "longer probe lengths and the identifiers after them must still be requested and reported.  "
+    "A share of the service scans runs through the real run() (cyclic tester present on, as by default) against ECUs with an S3 session "
+    "timer on the virtual clock (S3Transport in this file): a non-default session falls back to the default session when no request has "
+    "reached the diagnostic server for S3 seconds; requests the ECU discards unanswered in front of it (service ids that stay silent "
+    "for all four probe lengths, under-length requests) do not restart the timer.  Several non-default sessions are scanned in one "
+    "run, mostly with --reset (ECUReset + wait for the ECU between the sessions, which stops and restarts the cyclic tester present), "
+    "with scanner response timeout / tester-present interval / S3 chosen so that during the probes of a silent service id only the "
+    "cyclic tester present keeps the scanned session alive; every later probe must still reach the ECU in the claimed session"
 )
 LEVEL_TEXT = (
     "Exploration: seeded virtual ECUs (p_session 0.3..1, p_service 0.1..0.6, p_identifier 0.05..0.4, with and without "
@@ -41,7 +48,9 @@ LEVEL_TEXT = (
     "check-session intervals, skip maps, skip-not-supported; ECU-side session drop-outs (with check-session) and lost replies "
     "(retries); ECUs whose session identifier 0xF186 is unreadable in some non-default sessions (service absent / requestOutOfRange / "
     "no answer), with and without drop-outs; unanswered / garbled session changes in the middle of the session list, garbled replies "
-    "to the shorter probe lengths of a service, never-answered and garbled identifiers inside the scanned range.  Held = on every generated scan each claim of the scanner agrees with the ECU-side log."
+    "to the shorter probe lengths of a service, never-answered and garbled identifiers inside the scanned range; ECUs with an S3 session timer "
+    "(response timeout + tester-present interval + 0.5 s < S3 < 4 response timeouts) x 2..4 non-default sessions per run x reset on/off x "
+    "service ids silent for every probe length, scanned through run() with the cyclic tester present.  Held = on every generated scan each claim of the scanner agrees with the ECU-side log."
 )
 LEVEL_NOTE = (
     "Trusted: InProcessTransport in vf/ecu_models.py, the window/probe classification of the ECU-side log in this file, gallia's "
@@ -50,7 +59,7 @@ LEVEL_NOTE = (
 RULE = (
     "cases = (server seed, randomness parameters, behaviour switches, scanner kind, session list, skip map, option flags, identifier "
     "range, scanned service, payload, check-session interval, drop-out / loss positions, minimum-length map of the ECU, sessions without a readable "
-    "session identifier, faulty session changes, garbled probe lengths, never-answered / garbled identifiers, run mode); non-trivial = the ECU answers at "
+    "session identifier, faulty session changes, garbled probe lengths, never-answered / garbled identifiers, run mode, S3 time / response timeout / tester-present interval of S3 ECUs); non-trivial = the ECU answers at "
     "least one probe with something else than serviceNotSupported (services) resp. at least one identifier positively or the scan "
     "covers more than one session (identifiers); distinct = distinct case tuples; distinct_traces = distinct ECU-side logs"
 )
@@ -71,6 +80,11 @@ ASSUMPTIONS = [
     "incomplete negative response '7F sid' or a response naming another service, never for service id 0x3F (whose positive response id would be 0x7F); the "
     "scanned-service requests for 0xF186 are never made deaf or garbled; a faulty request has no effect on the ECU state; a session counts as entered only on a "
     "positive response that names it; the 'Abnormal replies' / 'Timeouts' tallies are outside the statement and not judged",
+    "ECUs with an S3 timer: the timer is restarted by every request that reaches the diagnostic server of the model (whatever the answer, TesterPresent included) and "
+    "not by requests the ECU discards in front of it; S3 is always longer than response timeout + tester-present interval + 0.5 s (the longest one unanswered request can "
+    "hold up the cyclic tester present of a scanner with these options) - shorter S3 times, which no tester with these options could serve, are not generated; these scans "
+    "run without injected drop-outs, session-read faults and session-change faults; an S3 expiry is not marked in the ECU-side log and excuses nothing: a probe that reaches "
+    "the ECU in another session than the claimed one is judged by the same rule as everywhere else; ECUReset with the configured reset type is part of these ECU models in every session",
     "a skip expression that the option parser reads differently from the documented grammar is reported as such AND the scan is still judged against the map "
     "the expression denotes (what the skip option names), so a wrongly widened or narrowed skip shows up as not-probed / probed-excluded service ids or identifiers",
 ]
@@ -134,6 +148,12 @@ def required_reach(tier: str) -> dict[str, int]:
         # identifiers the ECU never answers (all retransmissions) resp. answers with such a reply, with further identifiers after them
         "identifiers.never-answered-identifier.later-probed": 50, "identifiers.garbled-reply.later-probed": 50,
         "#identifiers.garbled-reply.later-probed.": 2,
+        # ECUs with an S3 session timer scanned through run() with the cyclic tester present on: non-default sessions entered after an
+        # ECUReset + wait for the ECU (cyclic tester present stopped and restarted), service ids silent for all four probe lengths, and
+        # stretches longer than S3 in which only TesterPresent reached the diagnostic server and the ECU stayed in the scanned session
+        "services.s3-ecu": 40, "services.s3-ecu.non-default-session-scanned": 80, "services.s3-ecu.session-entered-after-reset-and-wait": 40,
+        "services.s3-ecu.sid-silent-for-all-lengths": 100, "services.s3-ecu.kept-alive-by-tester-present-only": 60,
+        "services.s3-ecu.kept-alive-by-tester-present-only.after-reset-and-wait": 30,
     }
 
 
@@ -146,7 +166,138 @@ def make_server(case: dict[str, Any]) -> Any:
     srv = RandomUDSServer(case["server_seed"], rp, beh)
     srv.randomize()
     apply_session_read(srv, case.get("session_read") or {})
+    apply_reset_levels(srv, (case.get("s3") or {}).get("reset_levels") or [])
     return srv
+
+
+# ---- ECUs with an idle (S3) session timer ---------------------------------------------------------------------------
+def apply_reset_levels(srv: Any, levels: list[int]) -> None:
+    """the ECU model offers ECUReset with these reset types in every session (a reset the scanner is told to do must be possible,
+    otherwise nothing waits for the ECU); part of the model, i.e. of the ground truth for 'implements'"""
+    from gallia.services.uds.core.constants import UDSIsoServices
+
+    if not levels:
+        return
+    for d in srv.services.values():
+        d[UDSIsoServices.EcuReset] = sorted({*(d.get(UDSIsoServices.EcuReset) or []), *levels})
+
+
+_s3_transport: Any = None
+
+
+def s3_transport_class() -> Any:
+    """In-process transport in front of an ECU model with an S3 (session idle) timer on the event loop's (virtual) clock:
+    the timer is restarted whenever a request reaches the diagnostic server of the model (whatever it answers, TesterPresent
+    included); a request that the ECU discards in front of the server (mute map: under-length / never-answered service ids;
+    faulty_ecu) does not restart it.  When a request arrives more than `s3` seconds after the last restart while the ECU is in a
+    non-default session, the ECU has fallen back to its power-on state (default session) before it looks at the request.
+    Unlike the injected drop-outs this is NOT marked in the log (no pseudo entry, the window does not become 'dirty'): keeping the
+    session alive is the tester's job.  times[i] = virtual time of log entry i, processed = log indices that reached the server,
+    expired = [(log index of the request that found the session gone, session lost, idle seconds)]."""
+    global _s3_transport
+    if _s3_transport is None:
+        import asyncio
+
+        from vf import ecu_models as em
+
+        class S3Transport(em.InProcessTransport, scheme="inprocess-s3"):  # type: ignore[misc]
+            def __init__(self, server: Any, s3: float, **kw: Any) -> None:
+                super().__init__(server, **kw)
+                self.s3 = s3
+                self.times: list[float] = []
+                self.processed: set[int] = set()
+                self.expired: list[tuple[int, int, float]] = []
+                self.last_restart = 0.0
+                inner = self.st.handle_request
+
+                async def handle_request(pdu: bytes) -> Any:
+                    self.last_restart = asyncio.get_running_loop().time()
+                    self.processed.add(len(self.log))
+                    return await inner(pdu)
+
+                self.st.handle_request = handle_request  # type: ignore[method-assign]
+
+            async def write(self, data: bytes, timeout: float | None = None, tags: list[str] | None = None) -> int:
+                now = asyncio.get_running_loop().time()
+                if self.server.state.session != 1 and now - self.last_restart > self.s3:
+                    self.expired.append((len(self.log), self.server.state.session, round(now - self.last_restart, 3)))
+                    self.server.state.reset()
+                n = len(self.log)
+                try:
+                    return await super().write(data, timeout, tags)
+                finally:
+                    self.times.extend([now] * (len(self.log) - n))
+
+        _s3_transport = S3Transport
+    return _s3_transport
+
+
+S3_SCANNER_TIMEOUTS = (0.5, 1.0, 2.0, 2.0)  # response timeout of the scanner (2 s is gallia's default)
+S3_TP_INTERVALS = (0.25, 0.5, 0.5, 1.0)  # interval of the cyclic tester present (0.5 s is gallia's default)
+S3_SHARE = 0.09  # share of the service scans that run against an ECU with an S3 timer
+DEAF = 6  # minimum payload length no probe reaches: every probe length (1, 2, 3, 5) of such a service id is discarded unanswered
+
+
+def gen_s3_case(rng: Any) -> dict[str, Any]:
+    """A service scan through the real run() (cyclic tester present on, as by default) over several non-default sessions of an ECU
+    with an S3 timer, mostly with --reset (ECUReset + wait for the ECU after every session, which stops and restarts the cyclic
+    tester present), against service ids that stay silent for every probe length (plus the usual minimum-length ECUs).
+    The S3 time is chosen from what the scanner's own options can serve: longer than response timeout + tester-present interval
+    (the longest the cyclic tester present can be held up by one unanswered request) and shorter than four response timeouts (what
+    the probes of one all-silent service id take), so that in such a phase ONLY the cyclic tester present keeps the session alive."""
+    reset = rng.choice([1, 1, 1, 3, 3, None])
+    for attempt in range(8):
+        if attempt and reset is None:
+            reset = rng.choice([1, 3])  # no walk of two non-default sessions on that ECU: sessions of the first level, with a reset
+        case = gen_server_case(rng, need=[0x11] if reset is not None else None)
+        if "optional_sessions" not in case["rp"] or case["rp"]["p_session"] < 0.5:
+            case["rp"]["p_session"] = 0.8
+            case["rp"].setdefault("optional_sessions", [2, 3, 4, 0x40, 0x60])
+        t = rng.choice(S3_SCANNER_TIMEOUTS)
+        iv = rng.choice([x for x in S3_TP_INTERVALS if t + x + 0.5 < 4 * t - 0.25])
+        case["s3"] = {"timeout": round(rng.uniform(t + iv + 0.5, 4 * t - 0.25), 2), "scanner_timeout": t, "tp_interval": iv,
+                      "reset_levels": [reset] if reset is not None else []}
+        srv = make_server(case)
+        trans = transitions_of(srv)
+        lvl1 = [x for x in trans.get(1, []) if x != 1]
+        if reset is not None:
+            sessions = rng.sample(lvl1, min(len(lvl1), rng.randint(2, 4)))  # after the reset every one is entered from the default session
+        else:
+            sessions, cur = [], 1
+            for _ in range(rng.randint(2, 4)):  # a walk: every session is entered from the one scanned before
+                nxt = [x for x in trans.get(cur, []) if x not in sessions and x != 1]
+                if not nxt:
+                    break
+                cur = rng.choice(nxt)
+                sessions.append(cur)
+        if len(sessions) >= 2:
+            break
+    if not sessions or rng.random() < 0.25:
+        sessions.insert(rng.randint(0, len(sessions)) if reset is not None else 0, 1)  # the default session scanned as well
+    scan_response_ids = rng.random() < 0.25
+    skip: dict[int, list[int] | None] = {}
+    if rng.random() < 0.3 and sessions:
+        a = rng.choice([0, 0x10, 0x27, 0x80, 0xBF, rng.randrange(256)])
+        skip[rng.choice(sessions)] = list(range(a, min(256, a + rng.choice([1, 4, 16, 64]))))
+    mute = gen_mute(rng, srv) if rng.random() < 0.6 else {}
+    for s in sessions:
+        if s == 1 and rng.random() < 0.7:
+            continue
+        cand = [x for x in range(256) if (scan_response_ids or not x & 0x40) and x not in MUTE_EXEMPT and x not in (skip.get(s) or [])]
+        impl = [x for x in cand if x in model_of(srv).get(s, set())]
+        chosen = set(rng.sample(cand, min(len(cand), rng.randint(1, 3))))
+        if impl and rng.random() < 0.6:
+            chosen.add(rng.choice(impl))  # an implemented service that is never answered in this session
+        mute.setdefault(str(s), {}).update({str(x): DEAF for x in chosen})
+    sessions_opt: Any = list(sessions)
+    case.update({
+        "kind": "services", "sessions_opt": sessions_opt, "sessions": list(sessions), "check_session": rng.random() < 0.25,
+        "scan_response_ids": scan_response_ids, "reset": reset, "skip": {str(k): v for k, v in skip.items()},
+        "skip_expr": render_skip(rng, skip) if skip else [], "full": True, "dropouts": [], "mute": mute,
+        "session_read": {}, "dsc_fault": {},
+    })
+    case["garble"] = gen_garble(rng, srv, mute) if rng.random() < 0.2 else {}
+    return case
 
 
 SESSION_READ = b"\x22\xf1\x86"
@@ -501,6 +652,8 @@ def pick_sessions(rng: Any, srv: Any) -> tuple[Any, list[int]]:
 
 # ---- services scan -------------------------------------------------------------------------------------------------
 def gen_services_case(rng: Any) -> dict[str, Any]:
+    if rng.random() < S3_SHARE:
+        return gen_s3_case(rng)
     check = rng.random() < 0.4
     dropouts = check and rng.random() < 0.4
     case = gen_server_case(rng, need=[0x22] if dropouts else None)
@@ -608,16 +761,22 @@ async def scan_services(case: dict[str, Any]) -> dict[str, Any]:
     from vf import ecu_models as em
 
     srv = make_server(case)
-    tr = em.InProcessTransport(srv, budget=200_000, dropouts=set(case["dropouts"]),
-                               drop_filter=lambda q: len(q) >= 2 and not any(q[1:]) and q[0] != 0x3E, mute=mute_map(case))
+    s3 = case.get("s3") or None
+    kw: dict[str, Any] = {"budget": 200_000, "dropouts": set(case["dropouts"]), "mute": mute_map(case),
+                          "drop_filter": lambda q: len(q) >= 2 and not any(q[1:]) and q[0] != 0x3E}
+    tr = s3_transport_class()(srv, s3["timeout"], **kw) if s3 else em.InProcessTransport(srv, **kw)
     faulty_ecu(case, srv, tr.st)
     cap = em.fresh_capture()
     opts: dict[str, Any] = {"sessions": case["sessions_opt"], "check_session": case["check_session"], "scan_response_ids": case["scan_response_ids"],
                             "reset": case["reset"], "skip": list(case["skip_expr"]) if case["skip_expr"] else {}}
+    if s3:
+        opts.update({"timeout": s3["scanner_timeout"], "tester_present_interval": s3["tp_interval"]})
     sc = em.make_scanner(ServicesScanner, **opts)
     out = await em.run_scanner(sc, tr, case["full"])
     out.update({"result": list(sc.result), "log": tr.log, "lost": set(tr.lost), "records": list(cap.results), "problems": list(cap.problems),
                 "cfg_sessions": sc.config.sessions, "cfg_skip": sc.config.skip, "model": model_of(srv), "n_dropouts": tr.n_dropouts})
+    if s3:
+        out.update({"times": tr.times, "processed": tr.processed, "s3_expired": list(tr.expired)})
     return out
 
 
@@ -653,13 +812,17 @@ def check_services(ctx: Any, case: dict[str, Any]) -> None:
     given = case["sessions_opt"] is not None
     ident = ("services", case["server_seed"], sorted(case["rp"].items()), case["behavior_off"], case["sessions_opt"], case["check_session"],
              case["scan_response_ids"], case["reset"], case["skip_expr"], case["full"], case["dropouts"], sorted(mute_map(case).items()),
-             sorted((case.get("session_read") or {}).items()), sorted((case.get("dsc_fault") or {}).items()), repr(sorted((case.get("garble") or {}).items())))
+             sorted((case.get("session_read") or {}).items()), sorted((case.get("dsc_fault") or {}).items()), repr(sorted((case.get("garble") or {}).items())),
+             repr(sorted((case.get("s3") or {}).items())))
     w: dict[str, Any] = {k: case[k] for k in ("kind", "server_seed", "rp", "behavior_off", "sessions_opt", "sessions", "check_session", "scan_response_ids",
                                             "reset", "skip", "skip_expr", "full", "dropouts")}
     w["mute"] = case.get("mute") or {}
     w["session_read"] = case.get("session_read") or {}
     w["dsc_fault"] = case.get("dsc_fault") or {}
     w["garble"] = case.get("garble") or {}
+    s3 = case.get("s3") or None
+    if s3:
+        w["s3"] = s3
     mute = mute_map(case)
     if mute:
         ctx.reach("services.min-length-ecu")
@@ -672,6 +835,12 @@ def check_services(ctx: Any, case: dict[str, Any]) -> None:
     log, model = out["log"], out["model"]
     ctx.trace([(b, q, r) for b, q, r, _ in log])
     ctx.reach("services.scans")
+    if s3:
+        # ECU with an S3 timer, scanned through run() with the cyclic tester present on
+        ctx.reach("services.s3-ecu")
+        if out["s3_expired"]:
+            ctx.reach("services.s3-ecu.session-expired")  # (informative; what follows from it is judged per probe below)
+            w["s3_expired"] = [{"at_request": i, "session_lost": s, "idle_s": idle, "request": log[i][1] if i < len(log) else None} for i, s, idle in out["s3_expired"][:6]]
     w["exit"] = out["exit"]
     w["requests"] = len(log)
     w["errors_logged"] = out["problems"][:4]
@@ -775,6 +944,30 @@ def check_services(ctx: Any, case: dict[str, Any]) -> None:
         reentered_after_dropout = unreadable_after_reentry = False
         tainted: set[int] = set()
         ww = {**w, "session": S}
+        if s3 and real_S != 1 and wd.entries:
+            # reach only: a non-default session of an S3 ECU; entered after an ECUReset the ECU carried out (the scanner then waited for the
+            # ECU, which stops and restarts its cyclic tester present); a stretch longer than S3 in which nothing but TesterPresent reached
+            # the diagnostic server and after which the ECU is still in the scanned session (only the cyclic tester present kept it alive)
+            first = wd.entries[0][0]
+            after_wait = any(len(q) == 2 and q[0] == 0x11 and r is not None and r[0] == 0x51 for _, q, r, _ in log[:first])
+            ctx.reach("services.s3-ecu.non-default-session-scanned")
+            if after_wait:
+                ctx.reach("services.s3-ecu.session-entered-after-reset-and-wait")
+            times, processed = out["times"], out["processed"]
+            last_other, tp_between, kept = times[first], False, False
+            for i, before, q, r, _ in wd.entries:
+                if i not in processed:
+                    continue
+                if q == b"\x3e\x00":
+                    tp_between = True
+                    continue
+                if before == real_S and tp_between and times[i] - last_other > s3["timeout"]:
+                    kept = True
+                last_other, tp_between = times[i], False
+            if kept:
+                ctx.reach("services.s3-ecu.kept-alive-by-tester-present-only")
+                if after_wait:
+                    ctx.reach("services.s3-ecu.kept-alive-by-tester-present-only.after-reset-and-wait")
         for i, before, q, r, delivered in wd.entries:
             if q == b"":
                 dirty = was_dirty = True
@@ -851,6 +1044,8 @@ def check_services(ctx: Any, case: dict[str, Any]) -> None:
             classes = [reply_class(p[1], p[2], p[3]) for p in ps]
             if "silence" in classes:
                 ctx.reach("services.sid-with-silent-probe")
+                if s3 and real_S != 1 and len(classes) >= len(LENGTHS) and all(c == "silence" for c in classes) and mute.get((real_S, sid), 0) >= DEAF:
+                    ctx.reach("services.s3-ecu.sid-silent-for-all-lengths")
                 k = next((j for j, c in enumerate(classes) if c not in NO_FINDING), None)
                 if k is not None and "silence" in classes[:k]:
                     ctx.reach("services.found-after-silence")
